@@ -11,9 +11,7 @@ import (
 )
 
 var (
-	b0     = big.NewInt(0)
 	b1     = big.NewInt(1)
-	b2     = big.NewInt(2)
 	b2048  = big.NewInt(2048)
 	minDif = big.NewInt(131072)
 )
